@@ -127,6 +127,10 @@ func parseNumber(buf []byte) (id, val uint64) {
 		// Float can only have have a leading 0 when followed by a period.
 		return 0, 0
 	}
+	if pos > 2 && buf[0] == '-' && buf[1] == '0' && isNumberRune[buf[2]]&isFloatOnlyFlag == 0 {
+		// Same after a minus sign.
+		return 0, 0
+	}
 	f64, err := strconv.ParseFloat(unsafeBytesToString(buf[:pos]), 64)
 	if err == nil {
 		return floatTag, math.Float64bits(f64)
